@@ -9,7 +9,7 @@ META = {
     "bounds": "uniqueness: builder world + one new entity with arbitrary <=2-character id / unique id / dcc address; record parsers: "
               "concrete skeleton, scalar values from a 22-word numeric vocabulary (well-formed dec/hex, boundary, malformed) and an "
               "arbitrary 2-character id, one earlier sibling; getters: builder world with arbitrary connected / class bits",
-    "stubs": ["libyaml -> scripted events (mode B)", "strtol model"],
+    "stubs": ["libyaml -> scripted events (mode B)", "strtol model", "sections query: the five record parsers -> recorders"],
     "outside": ["whole-file acceptance with nested records (does not finish; see C13 mutation queries in the thorough tier)",
                 "board / accessory / peripheral / segment / reverser record parsers' own duplicate checks beyond the add-functions "
                 "(numbers, ports, addresses, CVs per board): thorough tier only via C13 units",
@@ -36,4 +36,37 @@ def queries():
                     env=ENV, defs=dict(yd, MODE=2, REC=1, NCAL=ncal, VERIF_YAML_LEN=ncal + 1), unwind=14, unwindset=uw))
     qs.append(Q("record-train-function", "C14_accept.c", PS + ["src/parser/bidib_config_parser_board.c", "src/parser/bidib_config_parser_track.c"],
                 env=ENV, defs=dict(yd, MODE=2, REC=2, VERIF_YAML_LEN=7), unwind=14, unwindset=uw))
+    # section routing of the per-board record of the track file: every sequence of section keys (seven names + an unknown word)
+    # of length 1 and 2 (thorough: 3), record parsers stubbed; key words concrete per query (the parser's state machine
+    # depends on them), board id word chosen by the solver
+    YT = {"S": 6, "[": 7, "]": 8, "{": 9, "}": 10}
+    import itertools
+    for nsec in (1, 2, 3):
+        sh = "SS" + "S[{}]" * nsec + "}"
+        for keys in itertools.product(range(8), repeat=nsec):
+            if nsec == 3 and not (keys[0] < keys[1]):      # thorough: third section after every accepted pair
+                continue
+            for bw in ((8, 9) if nsec == 1 else (8,)):       # board id word: "b1" (configured) / "zz" (not in the board file)
+                words = [7, bw] + sum(([9 if k == 7 else k, -1, -1, -1, -1] for k in keys), []) + [-1]
+
+                def pre(wd, repo, sh=sh, words=words):
+                    import os
+                    open(os.path.join(wd, "shape.c"), "w").write(
+                        "const unsigned char verif_yaml_shape[] = {%s};\nconst int verif_yaml_shape_n = %d;\n"
+                        "const signed char verif_yaml_shape_word[] = {%s};\n"
+                        % (", ".join(str(YT[c]) for c in sh), len(sh), ", ".join(str(w) for w in words)))
+                qs.append(Q("sections-%s%s" % ("".join(str(k) for k in keys), "" if bw == 8 else "-unknownboard"), "C14_sections.c",
+                            PS + ["src/parser/bidib_config_parser_board.c", "src/parser/bidib_config_parser_train.c"],
+                            env=ENV, extra_srcs=["@wd/shape.c"], pre=pre, cache_harness=True,
+                            defs={"NSEC": nsec, "VERIF_YAML_SHAPE": None, "VERIF_YAML_SHAPE_WORDS": None, "VERIF_YAML_DICT_ONLY": None,
+                                  "VERIF_YAML_WORDMAX": 14, "VERIF_GARRAY_CAP": 4, "VERIF_GARRAY_REPLACE": None},
+                            unwind=len(sh) + 3, unwindset=["strcmp.0:15", "strlen.0:15", "g_string_new.0:15", "verif_yaml_word.0:16", "verif_yaml_word.1:12",
+                                                           "harness.0:%d" % (nsec + 2), "harness.1:%d" % (nsec + 2)],
+                            instr=[["--replace-calls", "bidib_config_parse_single_board_accessory:stub_board_accessory"],
+                                   ["--replace-calls", "bidib_config_parse_single_dcc_accessory:stub_dcc_accessory"],
+                                   ["--replace-calls", "bidib_config_parse_single_board_peripheral:stub_peripheral"],
+                                   ["--replace-calls", "bidib_config_parse_single_board_segment:stub_segment"],
+                                   ["--replace-calls", "bidib_config_parse_single_board_reverser:stub_reverser"]],
+                            tier="quick" if nsec <= 2 else "thorough", nowitness=(nsec == 2 and keys[0] % 3 != 0) or nsec == 3,
+                            note="section keys %s (0 points-board .. 6 reversers, 7 unknown word)" % (keys,)))
     return qs
